@@ -14,7 +14,7 @@ MOD = r'''
 mod verif_xyb {
     use super::*;
     // pure, strictly monotone stand-in for the cube root (structure lemmas only)
-    fn stub_cbrtf(x: f32) -> f32 { x * 0.5 + 0.25 }
+    fn stub_cbrtf(x: f32) -> f32 { f32::from_bits(x.to_bits().rotate_left(5) ^ 0x3333_3333) }
 
     #[kani::proof]
     fn k_xyb_k_consts() {
